@@ -167,6 +167,12 @@ def _move_symidx(eqn, ins, idx_pos, kind):
                 raise Unsupported(f"{name}: output element depends on two symbolic index entries")
             owner[pos] = e
             cur = out0.a.reshape(-1)[pos]
+            if CANON_ARGMAX and kind == "real" and c.tags is not None:
+                # order-independent selection atom (builds in the unique-maximiser precondition, see sym.maxsel)
+                cands = [(c.tags[0], cur)] + [(c.tags[1 + q], of[pos]) for q, (cond, of, idf) in enumerate(alts)]
+                resf[pos] = S.maxsel(cands)
+                STATS["maxsel_atoms"] += 1
+                continue
             # first case is the default; later cases override under their guard
             for cond, of, idf in alts:
                 if kind == "real":
@@ -354,7 +360,7 @@ def _argmax_cases(vals, is_max=True):
             else:
                 conds.append(S.lt(vals[j], vals[i]) if i < j else S.le(vals[j], vals[i]))
         cases.append((S.band(*conds), j))
-    return Cases(cases)
+    return Cases(cases, tags=list(vals) if is_max else None)
 
 
 def _argminmax(is_max):
@@ -595,6 +601,9 @@ def _cumsum(ins, params):
 
 ARITH["cumsum"] = _cumsum
 
+
+# canonical (order-independent) argmax selection, only for network-level obligations that ASSUME the max-pool precondition
+CANON_ARGMAX = False
 
 # let-abstraction threshold (number of polynomial terms); None = always expand (exact normal form)
 DEF_THRESHOLD = None
